@@ -47,6 +47,9 @@ pub struct Prog {
     /// RunAndCompileInputData option derivation + compile_file) and compare what it prints
     #[serde(default)]
     pub cli: bool,
+    /// operator-set option (`--operators-version N` / set_disassembly_ver); None = default
+    #[serde(default)]
+    pub ops_version: Option<u8>,
 }
 
 #[derive(Serialize, Deserialize, Clone, Debug, PartialEq)]
@@ -105,7 +108,7 @@ pub const FAILERS: [&str; 9] = [
 /// Hand-written programs that are known to be sensitive detectors: their bytes or symbols
 /// move when generated-name numbering, hash order, the integer mode or the macro set changes
 /// (shapes learnt from the defects of §12 and the seeded changes of §13 in DESIGN.md).
-pub const CANARIES: [&str; 15] = [
+pub const CANARIES: [&str; 19] = [
     // several CSE candidates with the same insertion root (numbering / hash order)
     "(mod (X Y) (include *standard-cl-23*) (defun F (A B) (list (sha256 (* A 17 A 19 A) B) (sha256 (* A 17 A 19 A) A) (concat (+ B 1000000 B 2000000 B) A) (concat (+ B 1000000 B 2000000 B) B) (* A 17 A 19 A) (+ B 1000000 B 2000000 B))) (F X Y))",
     "(mod (X Y Z) (include *standard-cl-24*) (defun G (A B C) (if (> A B) (list (* (+ A B) (+ A B)) (- (* B C) (* B C)) (+ (- C A) (- C A))) (list (+ (* B C) (* B C)) (* (- C A) (- C A)) (- (+ A B) (+ A B))))) (G X Y Z))",
@@ -129,6 +132,14 @@ pub const CANARIES: [&str; 15] = [
     // two helpers that compile to identical code share one function hash in the symbol table
     "(mod (X) (include *standard-cl-21*) (defun dbl (X) (* X 2)) (defun twice (AMOUNT) (* AMOUNT 2)) (+ (dbl X) (twice X)))",
     "(mod (X) (include *standard-cl-23*) (defun dbl (X) (* X 2)) (defun twice (AMOUNT) (* AMOUNT 2)) (defun thrice (Q) (* Q 3)) (+ (dbl X) (twice X) (thrice X)))",
+    // constant folding / compile-time constants with operators that only newer operator
+    // sets have (sensitive to operator-set state)
+    "(mod (X) (include *standard-cl-23*) (defun f (A) (+ A (% 1000 7))) (f X))",
+    "(mod (X) (include *standard-cl-23*) (defconst K (modpow 2 10 1000)) (+ X K))",
+    // the two programs on which the hash-order dependence of deinline_opt was first seen
+    // (prelim/p103.clsp, prelim/p65.clsp): many interacting synthetic let-binding helpers
+    "(mod (X Y) (include *standard-cl-23*) (defun f0 (a0_0 a0_1 a0_2) (c (assign v911 a0_0 v346 (c a0_0 (c a0_0 a0_2)) (logand 19 v911)) (c (assign v911 a0_0 v346 (c a0_0 (c a0_0 a0_2)) (logand 19 v911)) a0_2))) (defun f1 (a1_0) a1_0) (defun f2 (a2_0 a2_1 a2_2) (let* ((v907 (let ((v42 a2_0) (v493 (concat (let* ((v313 a2_0)) 19) (logand a2_2 a2_2)))) (let ((v268 a2_2) (v767 (c v493 (c v493 a2_1)))) v493))) (v822 a2_0) (v916 (logior a2_1 (let* ((v97 (- a2_2 a2_2)) (v466 (let ((v698 a2_2) (v498 a2_0) (v353 a2_1)) a2_1)) (v316 (assign v611 a2_1 v741 a2_2 v741))) (let* ((v144 v316) (v139 v316)) 19))))) a2_0)) (defun f3 (a3_0) (let* ((v881 (if (let ((v115 17) (v629 a3_0) (v53 a3_0)) v629) (assign v775 a3_0 v389 a3_0 a3_0) (- a3_0 a3_0))) (v120 (let* ((v675 (* a3_0 a3_0))) (let ((v202 v675) (v127 v675)) v202)))) (let* ((v100 (- v120 v120)) (v574 (logand v120 v120))) v100))) (assign v940 (c Y (c Y (if (let* ((v557 Y) (v197 Y)) v557) (logand X Y) (let* ((v751 X) (v605 Y) (v830 Y)) v605)))) v986 (let* ((v317 (let ((v174 (if Y Y X)) (v728 (logior X X)) (v284 (let ((v459 Y) (v11 X) (v135 Y)) v11))) (if 2 19 v728))) (v617 (f3 (assign v241 X v746 X 10))) (v809 (c (concat 19 X) (c (concat 19 X) (f3 Y))))) v809) v654 (concat (f1 Y) (logand Y (c X (c X Y)))) (assign v413 (concat (if v986 8 v654) (if v654 6 X)) v697 (assign v66 (assign v100 17 v385 Y v165 6 v654) v899 (f3 X) 20) v839 (+ X (if v940 12 v654)) (logior (if v413 v940 Y) (if v839 v413 Y)))))",
+    "(mod (X Y) (include *standard-cl-23*) (defun-inline f0 (a0_0 a0_1) (logand (if (if (logior a0_0 a0_0) (sha256 4 a0_1) (assign v236 a0_1 v944 a0_0 v892 a0_1 v236)) (* (logior a0_0 a0_1) (if a0_1 a0_1 a0_0)) (if (let* ((v684 a0_0) (v66 5)) v684) (if a0_1 3 19) (concat 16 a0_1))) (if (* (if a0_0 6 a0_1) (* a0_0 a0_1)) 5 (if (assign v286 18 v671 a0_1 v94 a0_0 v671) (* a0_0 a0_1) a0_0)))) (defun f1 (a1_0 a1_1) (c (assign v140 a1_1 v428 a1_0 v9 a1_0 v428) (c (assign v140 a1_1 v428 a1_0 v9 a1_0 v428) 16))) (defun f2 (a2_0 a2_1 a2_2) (assign v945 (+ (f1 (concat (f0 9 a2_2) a2_2) (concat a2_1 (let ((v719 a2_2)) a2_0))) (let ((v854 (c (f0 a2_2 a2_0) (c (f0 a2_2 a2_0) (c a2_2 (c a2_2 a2_0)))))) v854)) v724 (c a2_2 (c a2_2 (let* ((v118 (c a2_2 (c a2_2 (if a2_1 a2_0 a2_2)))) (v63 14) (v989 18)) 18))) (concat (c v724 (c v724 (let ((v215 (logior v724 v945))) (sha256 11 v945)))) (let* ((v94 (c (logior a2_0 a2_2) (c (logior a2_0 a2_2) a2_1)))) (c (if a2_0 v945 a2_2) (c (if a2_0 v945 a2_2) a2_2)))))) (defun f3 (a3_0 a3_1 a3_2) a3_2) (assign v364 (f3 (+ Y 7) (f0 X Y) (logand Y 20)) (let* ((v460 (f2 7 X Y)) (v72 (let* ((v405 Y)) v405)) (v316 (assign v516 5 v883 X v883))) (logior X v364))))",
 ];
 
 const WARMUP: [&str; 9] = [
@@ -223,11 +234,13 @@ pub fn norm_syms(m: &HashMap<String, String>) -> String {
     v.join("\n")
 }
 
-fn compile_text(
+#[allow(clippy::too_many_arguments)]
+fn compile_text_v(
     text: &str,
     name: &str,
     search: &[String],
     with_opts: bool,
+    ops_version: Option<u8>,
     allocator: &mut Allocator,
     syms: &mut HashMap<String, String>,
     reenter: Option<(i32, Box<dyn FnOnce()>)>,
@@ -235,6 +248,10 @@ fn compile_text(
     let r = std::panic::catch_unwind(AssertUnwindSafe(|| {
         let base: Rc<dyn CompilerOpts> = Rc::new(DefaultCompilerOpts::new(name));
         let base = base.set_search_paths(search);
+        let base = match ops_version {
+            Some(v) => base.set_disassembly_ver(Some(v as usize)),
+            None => base,
+        };
         let opts: Rc<dyn CompilerOpts> = match reenter {
             Some((n, f)) => Rc::new(ReOpts {
                 opts: base,
@@ -271,10 +288,14 @@ fn compile_text(
 }
 
 /// The `run` tool, as the command line runs it; the program text is read from `path`.
-fn compile_cli(path: &str, search: &[String]) -> Compiled {
+fn compile_cli(path: &str, search: &[String], ops_version: Option<u8>) -> Compiled {
     use chialisp::classic::clvm::__type_compatibility__::Stream;
     let r = std::panic::catch_unwind(AssertUnwindSafe(|| {
         let mut args: Vec<String> = vec!["run".to_string()];
+        if let Some(v) = ops_version {
+            args.push("--operators-version".to_string());
+            args.push(format!("{}", v));
+        }
         for d in search {
             args.push("-i".to_string());
             args.push(d.clone());
@@ -301,6 +322,18 @@ fn compile_cli(path: &str, search: &[String]) -> Compiled {
             syms: String::new(),
         },
     }
+}
+
+fn compile_text(
+    text: &str,
+    name: &str,
+    search: &[String],
+    with_opts: bool,
+    allocator: &mut Allocator,
+    syms: &mut HashMap<String, String>,
+    reenter: Option<(i32, Box<dyn FnOnce()>)>,
+) -> Compiled {
+    compile_text_v(text, name, search, with_opts, None, allocator, syms, reenter)
 }
 
 fn digest(b: &[u8]) -> String {
@@ -425,13 +458,14 @@ fn run_compile_op(
         } else {
             format!("r/src/{}", prog.name)
         };
-        compile_cli(&path, &prog.search)
+        compile_cli(&path, &prog.search, prog.ops_version)
     } else {
-        compile_text(
+        compile_text_v(
             &prog.text,
             &prog.name,
             &prog.search,
             prog.with_opts,
+            prog.ops_version,
             allocator,
             syms,
             re,
@@ -597,6 +631,11 @@ pub fn generate(rng: &mut Rng, thorough: bool) -> Workload {
                     corpus: true,
                     files: vec![],
                     cli: rng.chance(1, 5),
+                    ops_version: match rng.below(10) {
+                        0 => Some(0),
+                        1 => Some(1),
+                        _ => None,
+                    },
                 });
                 continue;
             }
@@ -611,6 +650,11 @@ pub fn generate(rng: &mut Rng, thorough: bool) -> Workload {
                 corpus: false,
                 files: vec![],
                 cli: rng.chance(1, 5),
+                ops_version: match rng.below(10) {
+                    0 => Some(0),
+                    1 => Some(1),
+                    _ => None,
+                },
             });
             continue;
         }
@@ -677,6 +721,11 @@ pub fn generate(rng: &mut Rng, thorough: bool) -> Workload {
             corpus: false,
             files,
             cli: rng.chance(1, 5),
+            ops_version: match rng.below(10) {
+                0 => Some(0),
+                1 => Some(1),
+                _ => None,
+            },
         });
     }
     // a near twin of one of the generated programs (same shape, one atom changed)
@@ -706,6 +755,43 @@ pub fn generate(rng: &mut Rng, thorough: bool) -> Workload {
                 progs.push(twin);
                 twin_pair = Some((progs.len() - 1, src));
             }
+        }
+    }
+    // a dialect twin: the same text under the sibling dialect that shares its stepping
+    // (cl23 <-> cl23.1, cl21 <-> strict-cl-21, cl23.1 <-> cl24): state keyed by stepping or
+    // left behind by the sibling shows up here
+    let mut dialect_pair: Option<(usize, usize)> = None;
+    if progs.len() < 5 && rng.chance(1, 4) {
+        const SIBLINGS: [(&str, &str); 6] = [
+            ("*standard-cl-23*", "*standard-cl-23.1*"),
+            ("*standard-cl-23.1*", "*standard-cl-23*"),
+            ("*standard-cl-21*", "*strict-cl-21*"),
+            ("*strict-cl-21*", "*standard-cl-21*"),
+            ("*standard-cl-24*", "*standard-cl-23.1*"),
+            ("*standard-cl-22*", "*standard-cl-21*"),
+        ];
+        let cands: Vec<usize> = (0..progs.len())
+            .filter(|i| !progs[*i].corpus && progs[*i].files.is_empty())
+            .collect();
+        if !cands.is_empty() {
+            let src = *rng.pick(&cands);
+            for (a, b) in SIBLINGS.iter() {
+                let needle = format!("(include {})", a);
+                if progs[src].text.contains(&needle) {
+                    let mut twin = progs[src].clone();
+                    twin.name = format!("sibling{}.clsp", src);
+                    twin.text = progs[src].text.replacen(&needle, &format!("(include {})", b), 1);
+                    progs.push(twin);
+                    dialect_pair = Some((progs.len() - 1, src));
+                    break;
+                }
+            }
+        }
+    }
+    // one run in eight goes through the command line front end only
+    if rng.chance(1, 8) {
+        for p in progs.iter_mut() {
+            p.cli = true;
         }
     }
     let k = progs.len();
@@ -759,7 +845,7 @@ pub fn generate(rng: &mut Rng, thorough: bool) -> Workload {
         });
     }
     // the twin and its original back to back on one thread, in either order
-    if let Some((tw, src)) = twin_pair {
+    for (tw, src) in twin_pair.into_iter().chain(dialect_pair.into_iter()) {
         let (a, b) = if rng.chance(1, 2) { (tw, src) } else { (src, tw) };
         let t = rng.below(threads.len() as u64) as usize;
         let at = rng.below(threads[t].ops.len() as u64 + 1) as usize;
